@@ -239,3 +239,84 @@ def parse_imf_fixdate(v):
 def not_modified(mtime, ims_epoch):
     """HTTP dates have one-second resolution: compare the whole-second modification time."""
     return int(mtime // 1) <= ims_epoch
+
+
+# ------------------------------------------------------------------ tolerant readings of a date (RFC 9110 5.6.7)
+
+_LAX_IMF = re.compile(r'^[A-Za-z]{3},? +([0-9]{1,2}) +([A-Za-z]{3}) +([0-9]{4}) +([0-9]{2}):([0-9]{2}):([0-9]{2})(?: +(\S+))?$')
+_LAX_850 = re.compile(r'^[A-Za-z]{6,9},? +([0-9]{1,2})-([A-Za-z]{3})-([0-9]{2}) +([0-9]{2}):([0-9]{2}):([0-9]{2})(?: +(\S+))?$')
+_LAX_ASC = re.compile(r'^[A-Za-z]{3} +([A-Za-z]{3}) +([0-9]{1,2}) +([0-9]{2}):([0-9]{2}):([0-9]{2}) +([0-9]{4})$')
+_NUM_ZONE = re.compile(r'^([+-])([0-9]{2}):?([0-9]{2})$')
+
+
+def _zone_offset(label, zone_offsets):
+    """Seconds east of UTC a zone token stands for, or None when nobody can tell."""
+    if label is None:
+        return None                      # HTTP-dates always name their zone
+    up = label.upper()
+    if up in ('GMT', 'UTC', 'UT', 'Z'):
+        return 0
+    m = _NUM_ZONE.match(label)
+    if m:
+        off = int(m.group(2)) * 3600 + int(m.group(3)) * 60
+        return off if m.group(1) == '+' else -off
+    return zone_offsets.get(up)
+
+
+def ims_readings(value, zone_offsets, now_year):
+    """Every instant (epoch seconds) a robust recipient may take `value` to state; empty when the
+    value cannot be read as a date at all.  A 304 is only ever justified by one of these readings
+    (RFC 9110 13.1.3: a field value that is not a valid HTTP-date MUST be ignored).
+
+    * IMF-fixdate layout, names in any case, week day not cross-checked; the zone token must be one
+      whose offset is known (GMT/UTC, numeric, or an abbreviation in `zone_offsets`): the instant is
+      the stated wall-clock time in that zone - never that wall-clock time re-labelled as UTC;
+    * RFC 850 layout: the two-digit year is read by the 50-year rule of RFC 9110 5.6.7 and, when the
+      stated week day only fits the other century, also as that century;
+    * asctime layout (always UTC).
+    """
+    if value is None:
+        return set()
+    v = value.strip(' \t')
+    months = [m.lower() for m in _MONTHS]
+    out = set()
+
+    def instant(y, mon, d, h, mi, s, off):
+        mon = mon.lower()
+        if mon not in months or off is None:
+            return None
+        mo = months.index(mon) + 1
+        if not (1 <= y <= 9999 and 1 <= d <= calendar.monthrange(y, mo)[1] and h < 24 and mi < 60 and s < 61):
+            return None
+        return calendar.timegm((y, mo, d, h, mi, min(s, 59))) - off
+
+    m = _LAX_IMF.match(v)
+    if m:
+        r = instant(int(m.group(3)), m.group(2), int(m.group(1)), int(m.group(4)), int(m.group(5)), int(m.group(6)),
+                    _zone_offset(m.group(7), zone_offsets))
+        if r is not None:
+            out.add(r)
+    m = _LAX_850.match(v)
+    if m:
+        yy = int(m.group(3))
+        y = 2000 + yy
+        if y > now_year + 50:
+            y -= 100
+        off = _zone_offset(m.group(7), zone_offsets)
+        for cand in (y, y - 100, y + 100):
+            r = instant(cand, m.group(2), int(m.group(1)), int(m.group(4)), int(m.group(5)), int(m.group(6)), off)
+            if r is None:
+                continue
+            wd_ok = _DAYS_FULL[calendar.weekday(cand, months.index(m.group(2).lower()) + 1, int(m.group(1)))] == \
+                v.split(',')[0].strip().lower()
+            if cand == y or (wd_ok and abs(cand - y) == 100):
+                out.add(r)
+    m = _LAX_ASC.match(v)
+    if m:
+        r = instant(int(m.group(6)), m.group(1), int(m.group(2)), int(m.group(3)), int(m.group(4)), int(m.group(5)), 0)
+        if r is not None:
+            out.add(r)
+    return out
+
+
+_DAYS_FULL = ['monday', 'tuesday', 'wednesday', 'thursday', 'friday', 'saturday', 'sunday']
